@@ -68,7 +68,7 @@ func echoReply(req *dns.Msg) *dns.Msg {
 // mkRich builds request (cid, seq). Parts are added in random order while the
 // packed size stays within budget. strict keeps the section counts the default
 // accept function admits (1 question, <=1 answer, <=1 authority, <=2 additional).
-func mkRich(r *Rng, cid, seq, budget int, strict bool) *richRequest {
+func mkRich(r *Rng, cid, seq, budget int, strict bool, force uint16) *richRequest {
 	for attempt := 0; attempt < 20; attempt++ {
 		tag := sha1.Sum([]byte(fmt.Sprintf("%d/%d/%d", cid, seq, r.Next())))
 		tg := tag[:]
@@ -239,6 +239,17 @@ func mkRich(r *Rng, cid, seq, budget int, strict bool) *richRequest {
 			parts = append(parts, genAny)
 		}
 		withOpt := r.Intn(8) != 0
+		if force != 0 && force != dns.TypeOPT && force != dns.TypeTSIG && force != dns.TypeSIG { // a record of this type first, whatever else fits
+			if rr, info := GenRR(r, pool, force, false); info.WellFormed {
+				save := *m
+				addRR(rr)
+				if m.Len() > budget-40 {
+					*m = save
+				} else {
+					kinds = append(kinds, dns.Type(force).String())
+				}
+			}
+		}
 		for n := len(parts); n > 0; n-- { // random order, stop at the budget
 			i := r.Intn(n)
 			f := parts[i]
@@ -293,6 +304,16 @@ func richFromWire(wire []byte, kinds []string) *richRequest {
 		return nil
 	}
 	return &richRequest{wire: wire, ref: ref, reply: reply, kinds: kinds}
+}
+
+// forcedType walks through all registered types, so that every run puts each
+// of them into kept requests several times.
+var forcedNext int
+
+func forcedType(r *Rng) uint16 {
+	ts := AllTypes()
+	forcedNext++
+	return ts[forcedNext%len(ts)]
 }
 
 // msgDiff names the first part in which two messages differ.
@@ -414,7 +435,7 @@ func runRetainUDP(r *Rng, n int, onep bool, udpSize int, strict bool) {
 	var in [][]byte
 	nparked := 0
 	for i := range reqs {
-		reqs[i] = mkRich(r, i, 0, budget, strict)
+		reqs[i] = mkRich(r, i, 0, budget, strict, forcedType(r))
 		in = append(in, reqs[i].wire)
 		if i < n-8 && r.Intn(4) == 0 {
 			parked[i] = true
@@ -553,8 +574,8 @@ func runRetainAliasing(r *Rng, n int) {
 			budget = 1100
 		}
 		strict := r.Bool()
-		rq := mkRich(r, i, 2, budget, strict)
-		other := mkRich(r, i, 3, budget, strict)
+		rq := mkRich(r, i, 2, budget, strict, forcedType(r))
+		other := mkRich(r, i, 3, budget, strict, 0)
 		br := &bufReader{}
 		pc := netfake.NewPacketConn([][]byte{rq.wire}, nil)
 		x := &badList{}
@@ -621,7 +642,7 @@ func runRetainTCP(r *Rng, nconn, per int) {
 		var stream []byte
 		var bounds []int
 		for s := 0; s < per; s++ {
-			rq := mkRich(r, c, s, []int{440, 1200, 3000}[r.Intn(3)], false)
+			rq := mkRich(r, c, s, []int{440, 1200, 3000}[r.Intn(3)], false, forcedType(r))
 			reqs[c] = append(reqs[c], rq)
 			bounds = append(bounds, len(stream))
 			stream = append(stream, frame(rq.wire)...)
@@ -796,7 +817,7 @@ func runRetainLoopback(r *Rng, nclients, per int) {
 					// Client.Exchange packs the message itself: what it sends is the
 					// re-encoding of q, and that is what the handler must see
 					q := new(dns.Msg)
-					q.Unpack(append([]byte(nil), mkRich(rr, c, s, 1100, false).wire...))
+					q.Unpack(append([]byte(nil), mkRich(rr, c, s, 1100, false, 0).wire...))
 					q.Compress = rr.Bool()
 					sentWire, err := q.Pack()
 					rq := richFromWire(sentWire, nil)
@@ -868,6 +889,6 @@ func runRetain(r *Rng, tier string) {
 		runRetainUDP(r, 300, false, 0, true)
 		runRetainTCP(r, 9, 6)
 	}
-	runRetainAliasing(r, 60*k)
+	runRetainAliasing(r, (len(AllTypes())+10)*k)
 	runRetainLoopback(r, 8, 15*k)
 }
